@@ -20,21 +20,29 @@ impl Buildpack for VB {
     type Platform = GenericPlatform;
     type Metadata = GenericMetadata;
     type Error = VErr;
-    fn detect(&self, _c: DetectContext<Self>) -> libcnb::Result<DetectResult, VErr> {
-        unimplemented!()
+    fn detect(&self, c: DetectContext<Self>) -> libcnb::Result<DetectResult, VErr> {
+        crate::vbscript::detect(c)
     }
-    fn build(&self, _c: BuildContext<Self>) -> libcnb::Result<libcnb::build::BuildResult, VErr> {
-        unimplemented!()
+    fn build(&self, c: BuildContext<Self>) -> libcnb::Result<libcnb::build::BuildResult, VErr> {
+        crate::vbscript::build(c)
+    }
+    fn on_error(&self, error: libcnb::Error<VErr>) {
+        crate::vbscript::on_error(error)
     }
 }
 
 pub fn mk_context(root: &Path) -> BuildContext<VB> {
+    for d in ["layers", "app", "buildpack"] {
+        std::fs::create_dir_all(root.join(d)).unwrap();
+    }
+    mk_context_existing(root)
+}
+
+/// like `mk_context` but performs no file-system operation at all
+pub fn mk_context_existing(root: &Path) -> BuildContext<VB> {
     let layers_dir = root.join("layers");
     let app_dir = root.join("app");
     let buildpack_dir = root.join("buildpack");
-    for d in [&layers_dir, &app_dir, &buildpack_dir] {
-        std::fs::create_dir_all(d).unwrap();
-    }
     BuildContext {
         layers_dir,
         app_dir,
